@@ -386,16 +386,16 @@ Proof.
         apply Hinvc; auto; cbn; discriminate.
       * split; [apply Hcont; exact Hperm|].
         apply Hinvc; try (apply rec_keep; assumption);
-          intros _; unfold rec_as; cbn; rewrite Z.eqb_refl; reflexivity.
+          intros Hk; cbn in Hk; try discriminate Hk; unfold rec_as; cbn; rewrite Z.eqb_refl; reflexivity.
       * split; [apply Hcont; exact Hperm|].
         apply Hinvc; try (apply rec_keep; assumption);
-          intros _; unfold rec_as; cbn; rewrite Z.eqb_refl; reflexivity.
+          intros Hk; cbn in Hk; try discriminate Hk; unfold rec_as; cbn; rewrite Z.eqb_refl; reflexivity.
       * split; [apply Hcont; exact Hperm|].
         apply Hinvc; try (apply rec_keep; assumption);
-          intros _; unfold rec_as; cbn; rewrite Z.eqb_refl; reflexivity.
+          intros Hk; cbn in Hk; try discriminate Hk; unfold rec_as; cbn; rewrite Z.eqb_refl; reflexivity.
       * split; [apply Hcont; exact Hperm|].
         apply Hinvc; try (apply rec_keep; assumption);
-          intros _; unfold rec_as; cbn; rewrite Z.eqb_refl; reflexivity.
+          intros Hk; cbn in Hk; try discriminate Hk; unfold rec_as; cbn; rewrite Z.eqb_refl; reflexivity.
 Qed.
 
 Lemma add_entries_perm log : forall a,
